@@ -1,3 +1,3 @@
 /- Props/C20.lean — property C20: all theorems live in namespace CM.Props.C20, split over two files. -/
 import CircuitProofs.Props.C20Base
--- import CircuitProofs.Props.C20Stream   -- enabled once its proofs are complete
+import CircuitProofs.Props.C20Stream
